@@ -264,6 +264,10 @@ func RunChildren(run *evid.Run, o ChildOpts) {
 				run.Inconclusive(fmt.Sprintf("child batch %d hit the %s wall-clock watchdog; last case %v", b, o.Timeout, last))
 				return
 			}
+			if who := panicOrigin(string(stderrB)); who == "harness" {
+				run.Broken(fmt.Sprintf("child batch %d: panic raised by the harness itself while running case %v: %s", b, last, firstLine(tail)))
+				return
+			}
 			sig, detail := run.Prop+"/process-died", det("kind", kind)
 			if o.OnDeath != nil {
 				sig, detail = o.OnDeath(last, tail, kind)
@@ -338,4 +342,37 @@ func firstFrames(rep string) string {
 		}
 	}
 	return strings.Join(out, " | ")
+}
+
+// panicOrigin looks at the stack of the panicking goroutine: "library" if the first frame that is neither
+// runtime nor standard library belongs to go-ipfs-log, "harness" if it belongs to the harness, "" otherwise.
+func panicOrigin(stderr string) string {
+	i := strings.Index(stderr, "panic:")
+	if j := strings.Index(stderr, "fatal error:"); j >= 0 && (i < 0 || j < i) {
+		i = j
+	}
+	if i < 0 {
+		return ""
+	}
+	rest := stderr[i:]
+	g := strings.Index(rest, "goroutine ")
+	if g < 0 {
+		return ""
+	}
+	block := rest[g:]
+	if e := strings.Index(block, "\n\n"); e > 0 {
+		block = block[:e]
+	}
+	for _, l := range strings.Split(block, "\n") {
+		if strings.HasPrefix(l, "\t") || strings.HasPrefix(l, "goroutine ") || strings.HasPrefix(l, "panic(") || strings.HasPrefix(l, "created by") {
+			continue
+		}
+		switch {
+		case strings.HasPrefix(l, "berty.tech/go-ipfs-log"):
+			return "library"
+		case strings.HasPrefix(l, "verifharness/") || strings.HasPrefix(l, "main."):
+			return "harness"
+		}
+	}
+	return ""
 }
